@@ -53,11 +53,13 @@ def gen_case(rnd, cid):
     elif kind == "assert_positive":
         ins.append("call assert_positive r1")
     elif kind == "assert_positive_w":
-        b = rnd.choice([0, 1, 2, 3, bl - 1, bl, bl + 1, bl + 2]); a = rnd.choice([0, 1, (1 << b) - 1, 1 << b, (1 << b) + 1, -1, full - 1, full, half])
+        b = min(rnd.choice([0, 1, 2, 3, bl - 1, bl, bl + 1, bl + 2]), 5)      # 2^(b+1) <= 97: the width must fit the search field
+        a = rnd.choice([0, 1, (1 << b) - 1, 1 << b, (1 << b) + 1, -1, full - 1, full, half])
         ins[0] = progs.lit_int(a)
         ins += [progs.lit_int(b), "call assert_positive r1 r2"]
     elif kind == "to_bits_w":
-        b = rnd.choice([0, 1, 2, 3, bl - 1, bl, bl + 1, bl + 2]); a = rnd.choice([0, 1, (1 << b) - 1, 1 << b, (1 << b) + 1, -1, full - 1, full, half])
+        b = min(rnd.choice([0, 1, 2, 3, bl - 1, bl, bl + 1, bl + 2]), 5)
+        a = rnd.choice([0, 1, (1 << b) - 1, 1 << b, (1 << b) + 1, -1, full - 1, full, half])
         ins[0] = progs.lit_int(a)
         ins += [progs.lit_int(b), "call to_bits r1 r2"]
     elif kind == "assert_range":
